@@ -193,7 +193,9 @@ fn paths_of(opts: &Opts) -> Vec<String> {
         None => vec!["/".to_string()],
         Some("hostile") => vec!["/".into(), "/dev/mdt0".into(), "/mnt/a b".into(), "q\"x".into(), "q\\\"x".into(), "b\\s".into(), "b\\\\s".into(),
                                 "trail\\".into(), "c\u{1}d".into(), "c\\x01d".into(), "é~;(\u{2028}".into(), "/dev/mdt1".into(), "/dev/mdt2".into(),
-                                "/".into(), "/dev/mdt0".into(), "q\"x".into()],
+                                "/".into(), "/dev/mdt0".into(), "q\"x".into(),
+                                // names that EXIST in the working directory of the recorder as symbolic links, a directory, a file
+                                "lnk".into(), "./lnk".into(), "d/lnk".into(), "mdt0".into(), "dirlnk".into(), "dangling".into(), "out".into(), "lnk".into()],
         Some(p) => p.split(',').map(|s| s.to_string()).collect(),
     }
 }
@@ -203,6 +205,8 @@ fn paths_of(opts: &Opts) -> Vec<String> {
 /// its first compilation (a cached "now") is then stale for everything recorded afterwards.
 fn warm_up_and_tick() {
     if let ParseOut::Ok(o, t) = run_parse("-mmin 1 -o -atime +1") { let _ = run_compile(&t, &o, &["/".to_string()]); }
+    // ... and a compilation that FAILS after it has handled a time test (what it leaves behind is stale too)
+    if let ParseOut::Ok(o, t) = run_parse("-type f -mmin -90 -ls") { let _ = run_compile(&t, &o, &["/".to_string()]); }
     std::thread::sleep(std::time::Duration::from_millis(1100));
 }
 
@@ -354,10 +358,10 @@ pub fn record_api(opts: &Opts) -> i32 {
                     _ => format!("-name {} -o -mmin -3", q(w.to_string())),
                 });
             }
-        } else if k % 13 == 6 {
+        } else if k == 6 {
             // collections inside ONE argument with repeated members (a set-like container would reorder them)
-            exprs.push(["-type f,d,l,s,f", "-type d,f,d -o -type l,l,p,b", "-perm u+r,g+w,u+r,o+x", "-printf '%p %s %p %u %p\\n'",
-                        "-name a -o -name b -o -name a -o -name c -o -name b", "-type s,p,l,d,f,c,b,s"][((k / 13) % 6) as usize].to_string());
+            for e in ["-type f,d,l,s,f", "-type d,f,d -o -type l,l,p,b", "-perm u+r,g+w,u+r,o+x", "-printf '%p %s %p %u %p\\n'",
+                      "-name a -o -name b -o -name a -o -name c -o -name b", "-type s,p,l,d,f,c,b,s", "-type f,d,l,f,d,l,f,d,p,s"] { exprs.push(e.to_string()); }
         } else if k % 3 == 0 {
             let n = 4 + rng.below(10);
             let parts: Vec<String> = (0..n).map(|_| match rng.below(7) {
@@ -389,6 +393,21 @@ pub fn record_api(opts: &Opts) -> i32 {
         } }
     }
     let mut seq = 0u64;
+    if proc_id == 0 && opts.get("no-failprobe").is_none() {
+        // the SAME expression compiled twice in a row with the clock advancing in between and nothing else compiled
+        // (a memo of "the last compiled expression" must not hand back a program with a stale second): time tests
+        // under every operator
+        for e in ["-mmin -5 -fprint recent.txt , -size +1M -print", "! -mtime +3 , -print", "( -amin 2 -o -name x ) -a -ctime -1"] {
+            for rep in 0..2 {
+                if let ParseOut::Ok(o, t) = run_parse(e) {
+                    let c = run_compile(&t, &o, &paths);
+                    seq += 1;
+                    emit(&mut out, &json!({"ev":"compile","proc":proc_id,"seq":seq,"eid":777000 + e.len(),"i":cps(e),"t":expr_to_json(&t),"o":opts_to_json(&o),"c":c}));
+                }
+                if rep == 0 { std::thread::sleep(std::time::Duration::from_millis(1100)); }
+            }
+        }
+    }
     // let the clock advance a few times during the history (right after failed compilations), so that
     // anything carried over from an earlier call shows against the [t0,t1] window of a later one
     let mut sleeps_left = opts.num("sleeps", 3);
@@ -546,7 +565,12 @@ pub fn total_corpus(rng: &mut Rng, count: usize) -> Vec<String> {
             2 | 3 => { let d = 1 + rng.below(3); let base = rand_expr_text(rng, d, false); for _ in 0..8 { v.push(mutate(rng, &base)); } }
             4 => {
                 let n = 1 + rng.below(64);
-                match rng.below(3) {
+                match rng.below(4) {
+                    3 => {
+                        // every level uses several operators before it opens the next group
+                        let lead = ["-empty , -readable -o -writable ( ", "-true -o -false , ! ( ", "-name a -name b -o ( ", "! -true , -print -o ( "][rng.below(4)];
+                        v.push(format!("{}-print{}", lead.repeat(n), " )".repeat(n)));
+                    }
                     0 => v.push(format!("{}-true{}", "( ".repeat(n), " )".repeat(n))),
                     1 => v.push(format!("{}-true", "! ".repeat(n))),
                     _ => v.push(format!("{}-print{}", "(".repeat(n), ")".repeat(n - rng.below(2)))),
